@@ -496,6 +496,22 @@ def inline_new_helpers(tree, ref_mod, known_names):
             elif isinstance(n, ast.ClassDef) and cls is None:
                 visit(n.body, n.name)
     visit(tree.body, None)
+    # a helper with no call left in the module has been folded into its callers: the copy that remains is dead as far as this
+    # module is concerned; who-may-write rules attribute its effects to the callers (the expanded copies), not to it
+    bases = helpers.pop("__bases__", {})
+    remaining = {}
+    for n in ast.walk(tree):
+        if isinstance(n, ast.Call):
+            f = n.func
+            nm = f.id if isinstance(f, ast.Name) else f.attr if isinstance(f, ast.Attribute) else None
+            if nm:
+                remaining[nm] = remaining.get(nm, 0) + 1
+        elif isinstance(n, ast.Attribute) and isinstance(n.ctx, ast.Load):
+            pass
+    for (c, f), h in helpers.items():
+        if remaining.get(f, 0) == 0:
+            h.fn._folded = True
+    stats["folded"] = sorted(f for (c, f), h in helpers.items() if getattr(h.fn, "_folded", False))
     ast.fix_missing_locations(tree)
     return stats
 
